@@ -165,6 +165,11 @@ impl Engine for ChunkerEngine {
             frags: None,
             suffix_pick: rng.next_u64(),
         };
+        let mut p = p;
+        if p.content.kind % N_CONTENT_KINDS == 8 && p.atom_order.is_none() && rng.chance(1, 2) {
+            // sparse content delivered region by region: a call starts exactly where a run of equal bytes starts
+            p.frags = Some(crate::content::sparse_region_lens(&p.content));
+        }
         serde_json::to_value(p).unwrap()
     }
 
@@ -342,7 +347,7 @@ impl Engine for ChunkerEngine {
     }
 
     fn rule(&self, _focus: &str) -> String {
-        "Each run: a seeded stream (random / constant / periodic / small-alphabet / early-match / atom recombination) at a seeded power-of-two target 2^7..2^17 is delivered to the real Chunker in seeded fragments (0- and 1-byte calls, sizes hugging min-65/min/max, huge) through one of three API modes and compared with the independent reference chunker; before one run in four another chunker is fed a partial stream on the same thread and dropped with its chunk open. Non-trivial: stream produced >= 3 chunks, was delivered in >= 2 calls and target >= 1024 (skip-ahead branch live). Distinct: hash of (target, content kind, API mode, chunk length list, first 64 fragment sizes).".into()
+        "Each run: a seeded stream (random / constant / periodic / small-alphabet / early-match / sparse: random segments alternating with long runs of one byte, optionally delivered region by region / atom recombination) at a seeded power-of-two target 2^7..2^17 is delivered to the real Chunker in seeded fragments (0- and 1-byte calls, sizes hugging min-65/min/max, huge) through one of three API modes and compared with the independent reference chunker; before one run in four another chunker is fed a partial stream on the same thread and dropped with its chunk open. Non-trivial: stream produced >= 3 chunks, was delivered in >= 2 calls and target >= 1024 (skip-ahead branch live). Distinct: hash of (target, content kind, API mode, chunk length list, first 64 fragment sizes).".into()
     }
     fn real_vs_stub(&self) -> Value {
         json!({"real": ["deduplication::Chunker (next, next_block, finish)", "merklehash::compute_data_hash", "gearhash"], "simulated": ["delivery of the byte stream (fragment sizes, API mode)"], "reference": ["ref_chunker", "ref_chunk_hash"]})
